@@ -41,7 +41,7 @@ std::string frame_vs_exp(const Msg& g, const Exp& e) {
     if (g.fstr(F_INTERFACE) != e.iface) return "interface";
     if (g.fstr(F_MEMBER) != e.member) return "member";
   }
-  if (e.type == T_ERROR && g.fstr(F_ERROR_NAME) != e.errname) return "error name '" + g.fstr(F_ERROR_NAME) + "' expected '" + e.errname + "'";
+  if (e.type == T_ERROR && !e.any_errname && g.fstr(F_ERROR_NAME) != e.errname) return "error name '" + g.fstr(F_ERROR_NAME) + "' expected '" + e.errname + "'";
   if ((e.type == T_ERROR || e.type == T_RETURN) && g.fu32(F_REPLY_SERIAL) != e.reply_serial) return "reply serial";
   if (!e.any_body) {
     if (g.body.size() != e.body.size()) return "body arity";
@@ -84,6 +84,89 @@ Msg BusModel::stamp(const Msg& m, int sender_conn) const {
   return s;
 }
 
+std::string BusModel::fingerprint() const {
+  std::string s;
+  for (auto& c : conns) { s += c.alive ? 'A' : 'd'; s += c.registered ? 'R' : 'u'; s += c.monitor ? 'M' : '-'; s += c.unique + "{"; for (auto& r : c.rules) s += r.show() + ";"; s += "}"; }
+  for (auto& kv : q) { s += kv.first + "["; for (auto& o : kv.second) s += std::to_string(o.conn) + (o.allow_repl ? "a" : "") + (o.dnq ? "d" : "") + ","; s += "]"; }
+  for (auto& p : pending) s += "P" + std::to_string(p.caller) + ">" + std::to_string(p.callee) + "#" + std::to_string(p.serial) + "@" + std::to_string(p.t_added_ms);
+  return s;
+}
+
+int BusModel::pending_of(int caller) const { int n = 0; for (auto& p : pending) if (p.caller == caller) n++; return n; }
+
+void BusModel::advance(long ms, Out& out) {
+  now_ms += ms;
+  if (reply_timeout_ms < 0) return;
+  for (size_t i = 0; i < pending.size();) {
+    if (now_ms - pending[i].t_added_ms >= reply_timeout_ms) {
+      const PendingReply p = pending[i];
+      pending.erase(pending.begin() + i);
+      if (conns[p.caller].alive) { Exp e = exp_error(conns[p.caller].unique, p.serial, "org.freedesktop.DBus.Error.NoReply"); out[p.caller].push_back(e); }
+    } else i++;
+  }
+}
+
+void BusModel::route(int c, const Msg& m, Out& out) {
+  Msg st = stamp(m, c);
+  if (!m.has(F_DESTINATION)) {
+    if (m.type == T_SIGNAL) for (int r : rule_recipients(st, c, -1)) out[r].push_back(exp_forward(st));   // broadcast
+    // [U] other types without destination are interpreted by the bus itself; nobody else sees them
+    return;
+  }
+  std::string dest = m.fstr(F_DESTINATION);
+  int addressed = primary(dest);
+  if (addressed < 0) {
+    // undeliverable.  [property C05] a method call earns exactly one error carrying its serial; [U] for other types / NO_REPLY_EXPECTED
+    Exp e = exp_error(conns[c].unique, m.serial, ""); e.any_errname = true;
+    if (m.type != T_CALL || (m.flags & 1)) e.optional = true;
+    out[c].push_back(e);
+    // [U] whether eavesdroppers see an undeliverable message
+    for (int r : rule_recipients(st, c, -1)) { Exp x = exp_forward(st); x.optional = true; out[r].push_back(x); }
+    return;
+  }
+  bool is_reply = m.type == T_RETURN || m.type == T_ERROR;
+  if (is_reply) {
+    // [M] requested reply: the addressee has an open slot for (addressee -> c, reply serial)
+    uint32_t rs = m.fu32(F_REPLY_SERIAL);
+    size_t slot = pending.size();
+    for (size_t i = 0; i < pending.size(); i++) if (pending[i].caller == addressed && pending[i].callee == c && pending[i].serial == rs) { slot = i; break; }
+    if (slot < pending.size()) pending.erase(pending.begin() + slot);
+    else if (replies_must_be_requested) {
+      // [property C09] refused as access denied, delivered to nobody
+      Exp e = exp_error(conns[c].unique, m.serial, "org.freedesktop.DBus.Error.AccessDenied"); e.optional = (m.flags & 1) != 0;
+      out[c].push_back(e);
+      return;
+    }
+  }
+  if (m.type == T_CALL && !(m.flags & 1)) {
+    // [M] a call that expects a reply opens a slot at its addressed recipient
+    for (auto& p : pending) if (p.caller == c && p.callee == addressed && p.serial == m.serial) {
+      // [D bus_connections_expect_reply] a second call with an outstanding (caller, callee, serial) is refused
+      Exp e = exp_error(conns[c].unique, m.serial, ""); e.any_errname = true; out[c].push_back(e); return;
+    }
+    if (pending_of(c) >= max_replies) { out[c].push_back(exp_error(conns[c].unique, m.serial, "org.freedesktop.DBus.Error.LimitsExceeded")); return; }
+    pending.push_back({c, addressed, m.serial, now_ms});
+  }
+  out[addressed].push_back(exp_forward(st));
+  for (int r : rule_recipients(st, c, addressed)) out[r].push_back(exp_forward(st));
+}
+
+void BusModel::add_optional_eavesdrop(Out& out, int caller, const Msg* driver_call) const {
+  std::vector<int> eaves;
+  for (size_t i = 0; i < conns.size(); i++) { if (!conns[i].alive || !conns[i].registered || conns[i].monitor) continue; for (auto& r : conns[i].rules) if (r.eavesdrop) { eaves.push_back((int)i); break; } }
+  if (eaves.empty()) return;
+  std::vector<std::pair<int, Exp>> add;
+  for (auto& kv : out) for (auto& e : kv.second) {
+    if (e.optional) continue;
+    bool unicast = e.full ? e.whole.has(F_DESTINATION) : !e.dest.empty();
+    bool from_bus = e.full ? false : e.sender == BUS_NAME;
+    if (!unicast || !from_bus || (e.type != T_RETURN && e.type != T_ERROR)) continue;
+    for (int y : eaves) if (y != kv.first) { Exp x = e; x.optional = true; add.push_back({y, x}); }
+  }
+  for (auto& a : add) out[a.first].push_back(a.second);
+  if (driver_call && caller >= 0) { Msg st = stamp(*driver_call, caller); for (int y : eaves) { Exp x = exp_forward(st); x.optional = true; out[y].push_back(x); } }
+}
+
 bool BusModel::remove_match(int c, const MatchRule& r) {
   auto& v = conns[c].rules;
   for (size_t i = v.size(); i > 0; i--) if (v[i - 1] == r) { v.erase(v.begin() + (i - 1)); return true; }
@@ -98,7 +181,8 @@ void BusModel::bus_signal(const std::string& member, const std::string& dest, co
   m.body = body;
   int addressed = dest.empty() ? -1 : conn_by_unique(dest);
   if (addressed >= 0) out[addressed].push_back(exp_bus_signal(member, dest, body));
-  for (int r : rule_recipients(m, -1, addressed)) out[r].push_back(exp_bus_signal(member, dest, body));
+  // broadcast: required.  Unicast signal from the bus (NameAcquired/NameLost): eavesdroppers' copies are optional [U]
+  for (int r : rule_recipients(m, -1, addressed)) { Exp x = exp_bus_signal(member, dest, body); x.optional = !dest.empty(); out[r].push_back(x); }
 }
 
 void BusModel::noc(const std::string& name, const std::string& oldo, const std::string& newo, Out& out) {
@@ -194,6 +278,14 @@ void BusModel::remove_owner_entry(const std::string& name, int c, Out& out, bool
 void BusModel::disconnect(int c, Out& out) {
   if (!conns[c].alive) return;
   conns[c].alive = false;   // it receives nothing any more
+  // [property C09] callee gone: exactly one NoReply per open slot to the caller; caller gone: slots dropped silently
+  for (size_t i = 0; i < pending.size();) {
+    if (pending[i].callee == c || pending[i].caller == c) {
+      const PendingReply p = pending[i];
+      pending.erase(pending.begin() + i);
+      if (p.callee == c && p.caller != c && conns[p.caller].alive) out[p.caller].push_back(exp_error(conns[p.caller].unique, p.serial, "org.freedesktop.DBus.Error.NoReply"));
+    } else i++;
+  }
   if (conns[c].registered) {
     std::vector<std::string> names;
     for (auto& kv : q) for (auto& o : kv.second) if (o.conn == c) names.push_back(kv.first);
